@@ -620,7 +620,7 @@ type c28Logger struct{ logger.NullLogger }
 
 type c28ErrEntry struct{}
 
-func (*c28Logger) Error() logger.Entry                                { return c28ErrEntry{} }
+func (*c28Logger) Error() logger.Entry                               { return c28ErrEntry{} }
 func (e c28ErrEntry) WithField(string, interface{}) logger.Entry     { return e }
 func (e c28ErrEntry) WithString(string, string) logger.Entry         { return e }
 func (e c28ErrEntry) WithFields(map[string]interface{}) logger.Entry { return e }
